@@ -47,7 +47,7 @@ def gen_cases(rng, n_per_kind, n_perturb):
     for kind in KINDS:
         for _ in range(n_per_kind):
             c = {'ex': kind, 'seed': rng.randrange(10 ** 9), 'perturb': n_perturb, 'length': rng.choice([3, 4]) if kind != 'dfa2regexp' else rng.choice([3, 4, 6, 6])}
-            sigma = rng.choice(['ab', 'a', 'abc']) if kind in ('words_dfa', 'complement', 'minimal', 'hopcroft') else rng.choice(['ab', 'a'])
+            sigma = rng.choice(['ab', 'a', 'abc']) if kind in ('words_dfa', 'complement', 'minimal', 'hopcroft', 'dfa2regexp') else rng.choice(['ab', 'a'])
             if kind in ('words_dfa', 'complement', 'reverse', 'minimal', 'hopcroft', 'dfa2regexp'):
                 c['D'] = G.random_dfa(rng, rng.randint(1, 4), sigma, names=rng.choice([None, ['A', 'B', 'C', 'D']]))
                 if c['D']['Q'][0] == 'A':
